@@ -861,6 +861,10 @@ def rule_logger_run(cx, cls, R):
     if stale_def is not None:
         rep.fail(R, I + "waits one logging period", "the period is read once, by `%s` before the loop: a parameter change broadcast while the logger runs is stored by the Param but never used, rows keep the old period"
                  % unp(stale_def), where=cx.where(rel, stale_def), fact={"period": unp(delay)})
+    elif delay is not None and not (isinstance(delay, ast.Call) and callee_name(delay) == "get") and any(
+            (isinstance(x_, ast.Attribute) and x_.attr == "now") or (isinstance(x_, ast.Call) and callee_name(x_) == "len") for x_ in ast.walk(delay)) and ".get()" in unp(delay):
+        rep.fail(R, I + "waits one logging period", "the wait `%s` is computed from an absolute schedule (current time / number of rows), not the logging period itself: once the period parameter "
+                 "changes, the next row comes a whole backlog late or the delay is negative (simpy raises)" % unp(delay), where=cx.where(rel, y), fact={"delay": unp(delay)})
     elif delay is None or not (isinstance(delay, ast.Call) and callee_name(delay) == "get" and is_self_attr(delay.func.value) and not delay.args):
         rep.incomplete(R, I + "waits one logging period", "yield value is not a Timeout of self.<param>.get(): %s" % unp(y), where=cx.where(rel, y))
     else:
